@@ -145,7 +145,6 @@ type pod struct {
 	Affinity     *podContainerAffinity          // annotated container affinity
 	PodResources *podresapi.PodResources        // pod resources acquired from podresourceapi
 	podResCh     <-chan *podresapi.PodResources // channel for pod resource fetch
-	waitResCh    chan struct{}                  // channel for waiting for pod resource fetch
 	prettyName   string                         // cached PrettyName()
 	ctime        time.Time                      // time of pod creation
 
